@@ -178,17 +178,49 @@ Theorem C11_failure_without_alert_refuted :
 Proof. exact failure_without_alert_refuted. Qed.
 Print Assumptions C11_failure_without_alert_refuted.
 
-Theorem C11_rsa_dtls13_fails_silently_refuted :
-  negotiate w_rsa13_c w_rsa13_s false = Some (Silent Server) /\
-  (forall x, In x g11_default_sigs -> sig_fits true 3 x = true -> sig_encodable x = false).
-Proof. exact rsa_dtls13_fails_silently_refuted. Qed.
-Print Assumptions C11_rsa_dtls13_fails_silently_refuted.
+(* ---- repaired since the first revision of this file (each was a _refuted theorem here) *)
+(* "fix: encode RSA-PSS schemes in CertificateVerify": every scheme a signature-scheme selection can return, for
+   any key type on either version, is one CertificateVerify can carry (regenerated table), the DTLS 1.3 server
+   flight never ends silently, and an RSA key completes DTLS 1.3 with an RSA-PSS scheme *)
+Theorem C11_selectable_schemes_are_encodable :
+  forall (is13 : bool) (key id : N), sig_fits is13 key id = true -> sig_encodable id = true.
+Proof. exact selectable_schemes_are_encodable. Qed.
+Print Assumptions C11_selectable_schemes_are_encodable.
 
-Theorem C11_client_signature_outside_own_policy_refuted :
-  exists c s o, negotiate c s false = Some (Ok o) /\ o_csig o <> 0 /\ ~ sig_allowed c (o_csig o).
-Proof. exact client_signature_outside_own_policy_refuted. Qed.
-Print Assumptions C11_client_signature_outside_own_policy_refuted.
+Theorem C11_server13_never_silent :
+  forall k ss h, server13 k ss h <> RSilent.
+Proof. exact server13_never_silent. Qed.
+Print Assumptions C11_server13_never_silent.
 
+Theorem C11_rsa_dtls13_completes_with_pss :
+  exists o, negotiate w_rsa13_c w_rsa13_s false = Some (Ok o) /\ o_version o = v13 /\ o_sig o = 2052.
+Proof. exact rsa_dtls13_completes_with_pss. Qed.
+Print Assumptions C11_rsa_dtls13_completes_with_pss.
+
+(* "fix: sign the client's CertificateVerify with a scheme its own policy allows": the scheme of the client's
+   CertificateVerify is allowed by BOTH option sets and fits the client's key (also clause pol_csig of
+   C11_in_policy); among the common schemes the server's order decides *)
+Theorem C11_client_signature_within_both_policies :
+  forall (c s : cfg) (seeded : bool) (o : outcome),
+    negotiate c s seeded = Some (Ok o) -> o_csig o <> 0 ->
+    sig_allowed c (o_csig o) /\ sig_allowed s (o_csig o) /\
+    sig_fits (o_version o =? v13) (c_key c) (o_csig o) = true.
+Proof. exact client_signature_within_both_policies. Qed.
+Print Assumptions C11_client_signature_within_both_policies.
+
+Theorem C11_client_signature_common_schemes :
+  forall remote local x, In x (common_sigs remote local) <-> In x remote /\ (local = [] \/ In x local).
+Proof. exact client_signature_server_order. Qed.
+Print Assumptions C11_client_signature_common_schemes.
+
+(* the pair that used to sign with ecdsa_secp256r1_sha256 (outside the client's list) now signs with
+   ecdsa_secp384r1_sha384 - replayed by the regress leg of checks/c11.py *)
+Theorem C11_client_signature_former_witness :
+  exists o, negotiate w_csig_c w_csig_s false = Some (Ok o) /\ o_csig o = 1283 /\ sig_allowed w_csig_c (o_csig o).
+Proof. exact client_signature_former_witness. Qed.
+Print Assumptions C11_client_signature_former_witness.
+
+(* ---- still refuted *)
 Theorem C11_alpn_disjoint_completes_on_dtls13_refuted :
   exists c s o, negotiate c s false = Some (Ok o) /\ c_alpn c <> [] /\ c_alpn s <> [] /\
                 (forall p, In p (c_alpn c) -> ~ In p (c_alpn s)) /\ o_alpn o = 0.
